@@ -565,6 +565,7 @@ func init() {
 				if r.chance(1, 3) {
 					spec.QuietMask = r.intn(1 << uint(n)) // tasks that write nothing
 				}
+				spec.Nested = spec.QuietMask&1 == 0 && r.chance(1, 3)
 				spec.Policy = []string{"all", "eager", "rand"}[r.intn(3)]
 				spec.HoldUS = r.intn(50)
 				if r.chance(1, 3) {
